@@ -104,11 +104,11 @@ package snps
 //@   before return#4: assert [c18.error.first] len(recvd(cErr)) == 1 && err == recvd(cErr)[0]
 //@   before return#5: assert [c18.error.first] len(recvd(cErr)) == 1 && err == recvd(cErr)[0]
 //@   before return#6: assert [c18.nil.means.clean] len(recvd(cErr)) == 0 && len(recvd(cFRDone)) == 1 && len(recvd(cSNPsDone)) == 1 && len(recvd(cWriteDone)) == 1
-//@   before call:aggregateWriteOutput#1: assert [c13.writer] aggregate && arg(0) == w && (arg(1) == threshold || (isnan(arg(1)) && isnan(threshold))) && arg(2) == cSNPs && arg(3) == cErr && arg(4) == cWriteDone
+//@   before call:aggregateWriteOutput#1: assert [c13.writer] old(aggregate) && arg(0) == old(w) && (arg(1) == old(threshold) || (isnan(arg(1)) && isnan(old(threshold)))) && arg(2) == cSNPs && arg(3) == cErr && arg(4) == cWriteDone
 //@   before call:getSNPs#1: assert [c03.worker] sameslice(arg(0), refSeq) && arg(1) == cFR && arg(2) == cSNPs && arg(3) == cErr
-//@   before call:writeOutput#1: assert [c03.writer] !aggregate && arg(0) == w && arg(1) == cSNPs && arg(2) == cErr && arg(3) == cWriteDone
+//@   before call:writeOutput#1: assert [c03.writer] !old(aggregate) && arg(0) == old(w) && arg(1) == cSNPs && arg(2) == cErr && arg(3) == cWriteDone
 //@   ensures [local.c18.error.returned] implies(gErrSeen, result != nil)
 //@   # C03: --hard-gaps reaches BOTH sides of the comparison: the reference codes come from the table hardGaps selects, and the
 //@   # streaming reader of the queries is started with the same flag
-//@   before call:ReadEncodeAlignment#1: assert [c03.refmode] forall(j, 0, len(refSeq), modeOK(refSeq[j], hardGaps))
-//@   before call:ReadEncodeAlignment#1: assert [c03.querymode] arg(1) == hardGaps
+//@   before call:ReadEncodeAlignment#1: assert [c03.refmode] forall(j, 0, len(refSeq), modeOK(refSeq[j], old(hardGaps)))
+//@   before call:ReadEncodeAlignment#1: assert [c03.querymode] arg(1) == old(hardGaps) && arg(0) == old(alignment)
